@@ -241,7 +241,7 @@ KILL_MULT = {"*="}
 
 
 def is_zero_val(v):
-    return v is not None and v.kind == "num" and v.sym is not None and v.sym.is_number and v.sym == 0
+    return v is not None and v.kind == "num" and v.sym is not None and v.sym.is_number and bool(v.sym.is_zero)
 
 
 def r1(chk, repo, models):
